@@ -62,6 +62,8 @@ def run(ctx, tier):
                          "canonicaliser removes exactly the prefix it added"),
                  ("T12", "constructor string parser: the three defaulting steps of 'change state' (hostname, pathname, search) list the "
                          "Standard's source and target states"),
+                 ("T13", "the URLPattern constructor empties the port only when its TEXT is the decimal spelling of the scheme's default port "
+                         "(\"0443\" is kept and canonicalised later)"),
                  ("T9", "the port canonicaliser tests the port state's limits (five significant digits, 65535)"),
                  ("T5", "each URLPattern canonicaliser scans and encodes with the one percent-encode set of its component")):
         ctx.rule(r, t)
@@ -72,6 +74,7 @@ def run(ctx, tier):
         check(ctx, fxs[name])
         check_canonicaliser_sets(ctx, fxs[name])
         check_default_port_uses(ctx, fxs[name])
+        check_default_port_elision_is_textual(ctx, fxs[name])
         check_value_entry(ctx, fxs[name])
         from rules import c14
         c14.check_special_scheme_twins(ctx, fxs[name], "T8")
@@ -238,6 +241,63 @@ def check_default_port_uses(ctx, fx):
                               "default port) get_special_port() is 0, so a port \"0\" is taken for the default port and dropped",
                               where=where)
     ctx.floor("T6", n, 6, "comparisons of a scheme's default port with a port")
+
+
+def check_default_port_elision_is_textual(ctx, fx):
+    """T13.  URLPattern constructor: "if processedInit["protocol"] is a special scheme and processedInit["port"] is a string which
+    represents its corresponding default port in radix-10 using ASCII digits then set processedInit["port"] to the empty string".
+    The port is compared as TEXT with the decimal spelling of the default port: "0443" is not the spelling of 443, it stays and
+    is canonicalised to "443" later.  A comparison of numbers (the port parsed, then compared with the default port) empties it.
+    Decided: the branch that clears the port is controlled by an equality of strings one side of which is the port text (or, if
+    the code compares numbers, it also looks at the port's first character / length)."""
+    from lib.loops import dominators
+    n = 0
+    for f in fx.fns("ada::parser::parse_url_pattern_impl"):
+        blk = {b["id"]: b for b in f["blocks"]}
+        texts = set()           # ids of locals holding the port text
+        for b in f["blocks"]:
+            for st in b["stmts"]:
+                if st["k"] == "decl":
+                    for v in st["vars"]:
+                        if v.get("init") is not None and "basic_string" in (v["ty"] + X.strip(v["init"]).get("ty", "")).replace("string_view", "basic_string") \
+                                and any(m.get("k") == "member" and m.get("field") == "port" for m in X.walk(v["init"])):
+                            texts.add(v["id"])
+
+        def is_port_text(e):
+            return any((m.get("k") == "member" and m.get("field") == "port") or (m.get("k") == "ref" and m.get("id") in texts)
+                       for m in X.walk(e))
+        dom = None
+        for nd, st, b in C.all_nodes(f):
+            if not (nd.get("k") == "call" and nd.get("name") in ("clear", "reset") and nd.get("recv") is not None
+                    and any(m.get("k") == "member" and m.get("field") == "port" for m in X.walk(nd["recv"]))):
+                continue
+            if dom is None:
+                dom = dominators(f)[0]
+            conds = [C.term_cond(blk[d]) for d in dom.get(b["id"], ()) if d != b["id"]]
+            conds = [c for c in conds if c is not None]
+            if not any("default_port" in X.show(c) or "get_special_port" in X.show(c) for c in conds):
+                continue            # some other clearing of the port (not the default-port step)
+            n += 1
+            textual = numeric = looks_at_spelling = False
+            for c in conds:
+                for m in X.walk(c):
+                    if m.get("k") == "call" and m.get("name") in ("operator==", "operator!=", "compare"):
+                        sides = list(m.get("args", [])) + ([m["recv"]] if m.get("recv") is not None else [])
+                        if any(is_port_text(sd) for sd in sides):
+                            textual = True
+                    if m.get("k") == "call" and m.get("name") in ("front", "size", "length", "starts_with", "operator[]") and \
+                            m.get("recv") is not None and is_port_text(m["recv"]):
+                        looks_at_spelling = True
+                    if m.get("k") == "bin" and m.get("op") in ("==", "!=") and "default_port" in X.show(m) and X.const_val(X.strip(m["l"])) is None \
+                            and X.const_val(X.strip(m["r"])) is None:
+                        numeric = True
+            ctx.check("T13", "%s: default-port elision compares the port's text" % f["qname"], textual or (numeric and looks_at_spelling) ,
+                      "string equality with the port text",
+                      "the branch that empties processedInit[\"port\"] is not controlled by a comparison of the port's TEXT with the decimal "
+                      "spelling of the default port%s: a port such as \"0443\" is not that spelling, must be kept (and is canonicalised to "
+                      "\"443\"), but is emptied" % (" (it compares numbers)" if numeric else ""),
+                      where=st.get("loc", "").replace("/repo/", ""))
+    ctx.floor("T13", n, 1, "default-port elision steps of the URLPattern constructor")
 
 
 def check_canonicaliser_sets(ctx, fx):
